@@ -35,8 +35,13 @@ def main():
         return 2
     rc, o = sh(f"git -C /repo apply {d}/patch.diff")
     if rc != 0:
-        print("patch does not apply:\n" + o)
-        return 2
+        # /repo has moved on since the change was written: three-way merge
+        rc, o2 = sh(f"git -C /repo apply --3way {d}/patch.diff")
+        sh("git -C /repo reset -q")
+        if rc != 0:
+            sh("git -C /repo checkout -- .")
+            print("patch does not apply:\n" + o + o2)
+            return 2
     work = f"{VERIF}/.work/seeded/{sid}"
     os.makedirs(work, exist_ok=True)
     env = dict(os.environ, VERIF_EVIDENCE_DIR=f"{work}/evidence",
@@ -61,7 +66,6 @@ def main():
             results.append(r)
             print(json.dumps(r))
     finally:
-        sh(f"git -C /repo apply -R {d}/patch.diff")
         rc, o = sh("git -C /repo checkout -- .")
         rc, o = sh("git -C /repo status --porcelain --untracked-files=no")
         if o.strip():
